@@ -3,6 +3,7 @@
 spec: SortOps.tla (RankOK, FastNDS), NDSort.tla (pairwise pass + peeling as a state machine), SortTrace.tla
 code: artap.operators.Selector.fast_nondominated_sorting
 """
+import math
 import itertools
 import json
 import os
@@ -141,6 +142,13 @@ class Sort(Part):
             m = case["m"]
             close = rng.random() < 0.2       # distinct values far closer than any plausible tolerance
             pools = [absx.monotone_map(rng, rng.randint(2, 5), style="close" if close else None) for _ in range(m)]
+            if rng.random() < 0.3:
+                # infinite costs (penalised or failed designs): several members may share +inf (or -inf) in the same objective
+                for pl in pools:
+                    if rng.random() < 0.6:
+                        pl.append(math.inf)
+                    if rng.random() < 0.15:
+                        pl.insert(0, -math.inf)
             inds = []
             mstyle_r = rng.randrange(3)
             for k in range(case["n"]):
